@@ -1,11 +1,14 @@
 (* uses: lib_irwire.ml *)
-(* Driver of the region-cover engine (C09).  Line: `<cfg sexp> [ignored ...]` (the graph as harness/src/bin/taint.rs
-   dumps it).  Prints `(rc (idx 0|1) (cover 0|1) (self 0|1) (ctl 0|1) (exit 0|1))`:
+(* Driver of the region-cover engine (C09).  Line: `<cfg sexp> [<branches sexp>] [<bset sexp>] [ignored ...]` (the graph
+   as harness/src/bin/taint.rs dumps it; optionally the REAL region table of Cfg::get_true_branch / get_false_branch
+   and the REAL set of names tainted by an input/output signal: then `coverreal` / `selfreal` are the same two
+   hypotheses evaluated on what the implementation computed, `-` otherwise).  Prints `(rc (idx 0|1) (cover 0|1) (self 0|1) (ctl 0|1) (exit 0|1))`:
      idx    Spec.CtlRegion.indices_distinct_b g
      cover  Spec.CtlRegion.region_covers_b g br        br = Model.BranchRegion.branches_of g
      self   Spec.CtlRegion.self_closed_b g es          es = exported_sinks g (t_edges (run_taint_analysis g br))
      ctl    Spec.CtlDep.ctl_closed_b g es              (implied by the three above: C09_regions_give_ctl_closed)
      exit   Spec.CtlRegion.all_reach_exit_b g
+     coverreal  region_covers_b g <real table>     selfreal  self_closed_b g <real tainted set>
    or (outoffuel) / (panic) / (err). *)
 open Datatypes
 open Base
@@ -23,8 +26,16 @@ let b01 b = A (if b then "1" else "0")
 let line l =
   let l = Stdlib.String.trim l in
   match parse_sexp ("(" ^ l ^ ")") with
-  | L (c :: _) ->
+  | L (c :: more) ->
     let g = r_cfg c in
+    let real_br = Stdlib.List.find_map (function
+        | L (A "branches" :: es) ->
+          Some (Stdlib.List.map (function
+              | L [i; L t; L f] -> (num_n i, (Stdlib.List.map num_n t, Stdlib.List.map num_n f))
+              | x -> failwith ("branch entry: " ^ show_sexp x)) es)
+        | _ -> None) more in
+    let real_b = Stdlib.List.find_map (function L (A "bset" :: vs) -> Some (Stdlib.List.map r_var vs) | _ -> None) more in
+    let opt f = function Some x -> b01 (f x) | None -> A "-" in
     BranchRegion.branches_of g >>= fun br ->
     let tm = (Taint.run_taint_analysis g br).Taint.t_edges in
     SideEffect.exported_sinks g tm >>= fun es ->
@@ -33,7 +44,9 @@ let line l =
       L [A "cover"; b01 (CtlRegion.region_covers_b g br)];
       L [A "self"; b01 (CtlRegion.self_closed_b g es)];
       L [A "ctl"; b01 (CtlDep.ctl_closed_b g es)];
-      L [A "exit"; b01 (CtlRegion.all_reach_exit_b g)]])
+      L [A "exit"; b01 (CtlRegion.all_reach_exit_b g)];
+      L [A "coverreal"; opt (CtlRegion.region_covers_b g) real_br];
+      L [A "selfreal"; opt (CtlRegion.self_closed_b g) real_b]])
   | _ -> "(badline)"
 
 let () = each_line line
